@@ -198,3 +198,44 @@ Example scriptC_codes :
     map scode (filter emits syms) = [Some "self._Y[t] = 2*self._X[t-1] + self._a[t]"; Some "self._X[t] = -self._Y[t]*self._Y[t]/4";
                                      Some "self._Z[t] = max(self._W[t], self._Y[t]) - self._e[t]"].
 Proof. eexists. split; vm_compute; reflexivity. Qed.
+
+(* ---------- conditional expressions ---------- *)
+(* the documented form `X if C > 0 else Y`, and one with not / and / or, a parenthesised condition and a chained alternative *)
+Example conditional_instance :
+  stmt_of_equation (row_of ["Y"; "X"; "C"; "W"]) "Y = X[-1] if C > 0 else W" =
+    Some ("Y", SAssign 0 0%Z (EIf CGt (ERead 2 0%Z) (ENum "0") (ERead 1 (-1)%Z) (ERead 3 0%Z))) /\
+  src_of_tokens (row_of ["Y"; "X"; "C"; "W"])
+      (lex_items LNone (scan_items "Y = X if not C >= 1 and (W < X or X == 2) else W if C != 0 else -X")) =
+    Some ("Y", 0, 0%Z,
+          SIf (ERead 1 0%Z)
+              (SAnd (SNot (SCmp CGe (ERead 2 0%Z) (ENum "1")))
+                    (SOr (SCmp CLt (ERead 3 0%Z) (ERead 1 0%Z)) (SCmp CEq (ERead 1 0%Z) (ENum "2"))))
+              (SIf (ERead 3 0%Z) (SCmp CNe (ERead 2 0%Z) (ENum "0")) (SVal (ENeg (ERead 1 0%Z))))).
+Proof. vm_compute. split; reflexivity. Qed.
+
+(* not C >= 1 and (W < X or X == 2): the nesting Eval evaluates — C >= 1 true: the alternative, nothing else is looked at *)
+Example conditional_nesting :
+  mk_if (SAnd (SNot (SCmp CGe (ERead 2 0%Z) (ENum "1"))) (SOr (SCmp CLt (ERead 3 0%Z) (ERead 1 0%Z)) (SCmp CEq (ERead 1 0%Z) (ENum "2"))))
+        (ERead 1 0%Z) (ERead 3 0%Z)
+  = EIf CGe (ERead 2 0%Z) (ENum "1") (ERead 3 0%Z)
+        (EIf CLt (ERead 3 0%Z) (ERead 1 0%Z) (ERead 1 0%Z) (EIf CEq (ERead 1 0%Z) (ENum "2") (ERead 1 0%Z) (ERead 3 0%Z))).
+Proof. reflexivity. Qed.
+
+(* one pass on binary64: Y = X[-1] if C > 0 else W at t = 1 with C = 2 reads C[1] and X[0] only — W is never touched *)
+Example conditional_pass :
+  match fprogram_of_script "Y = X[-1] if C > 0 else W" with
+  | Some (names, p) =>
+    names = ["Y"; "X"; "C"; "W"] /\
+    f_eval_pass [] false p 1%Z [[0; 0]; [3; 4]; [2; 2]; [7; 7]]%float
+    = (([[0; 3]; [3; 4]; [2; 2]; [7; 7]]%float, None),
+       [Acc false 2 1%Z (Some 1); Acc false 1 0%Z (Some 0); Acc true 0 1%Z (Some 1)])
+  | None => False
+  end.
+Proof. vm_compute. split; reflexivity. Qed.
+
+(* a comparison as a value, a chained comparison, a conditional inside parentheses: outside the subset (fail-closed) *)
+Example conditional_outside :
+  stmt_of_equation (row_of ["Y"; "X"]) "Y = X > 1" = None /\
+  stmt_of_equation (row_of ["Y"; "X"]) "Y = 1 if 0 < X < 2 else 0" = None /\
+  stmt_of_equation (row_of ["Y"; "X"]) "Y = 2*(1 if X > 0 else 0)" = None.
+Proof. vm_compute. repeat split; reflexivity. Qed.
